@@ -43,6 +43,23 @@ fn fail(sig: impl FnOnce() -> String, detail: impl FnOnce() -> String) -> Fail {
     shadow::pause(|| (sig(), detail()))
 }
 
+/// Panic signature with the OUT_DIR path of the textual copy mapped back to
+/// the source file (line numbers are identical: one line is replaced in place).
+fn panic_sig(p: &vcore::PanicInfo) -> String {
+    if p.file.ends_with("buffer_pool_shuttle.rs") {
+        format!("panic@src/buffer_pool.rs:{}", p.msg_class())
+    } else {
+        p.signature()
+    }
+}
+fn panic_loc(p: &vcore::PanicInfo) -> String {
+    if p.file.ends_with("buffer_pool_shuttle.rs") {
+        format!("src/buffer_pool.rs:{} (shuttle copy)", p.line)
+    } else {
+        p.loc()
+    }
+}
+
 // ---------------------------------------------------------------------------
 // Element types
 // ---------------------------------------------------------------------------
@@ -652,8 +669,8 @@ fn top_strategy() -> impl Strategy<Value = TOp> {
 struct Shared {
     /// blocks currently owned by some holder
     live: Mutex<BTreeSet<usize>>,
-    /// every block ever handed out
-    handed: Mutex<BTreeSet<usize>>,
+    /// every block ever handed out: ptr -> allocation serial
+    handed: Mutex<BTreeMap<usize, u64>>,
     /// blocks given back and not seen again: ptr -> origin type
     returned: Mutex<BTreeMap<usize, Ty>>,
     failure: Mutex<Option<Fail>>,
@@ -701,14 +718,17 @@ impl<P: PoolApi, T: Elem> VHolder<P> for VecH<T> {
 fn thread_alloc<P: PoolApi, T: Elem>(pool: &P, cap: usize, sh: &Shared, tid: usize) -> Result<Box<dyn VHolder<P>>, Fail> {
     let v: Vec<T> = match vcore::catch(|| pool.alloc::<T>(cap)) {
         Ok(v) => v,
-        Err(p) => return Err(fail(|| p.signature(), || format!("thread {tid}: pool.alloc::<{:?}>({cap}) panicked: {} at {}", T::TY, p.msg, p.loc()))),
+        Err(p) => return Err(fail(|| panic_sig(&p), || format!("thread {tid}: pool.alloc::<{:?}>({cap}) panicked: {} at {}", T::TY, p.msg, panic_loc(&p)))),
     };
     let ptr = v.as_ptr() as usize;
     let (vc, len) = (v.capacity(), v.len());
-    if let Err(e) = check_handout::<T>(ptr, cap, Some(vc), len, "pool.alloc (concurrent)") {
-        std::mem::forget(v);
-        return Err(e);
-    }
+    let info = match check_handout::<T>(ptr, cap, Some(vc), len, "pool.alloc (concurrent)") {
+        Ok(i) => i,
+        Err(e) => {
+            std::mem::forget(v);
+            return Err(e);
+        }
+    };
     if vc > 0 {
         if !sh.live.lock().unwrap().insert(ptr) {
             std::mem::forget(v);
@@ -717,7 +737,7 @@ fn thread_alloc<P: PoolApi, T: Elem>(pool: &P, cap: usize, sh: &Shared, tid: usi
                 || format!("thread {tid}: alloc::<{:?}>({cap}) returned the block at {ptr:#x} while another holder owns it", T::TY),
             ));
         }
-        sh.handed.lock().unwrap().insert(ptr);
+        sh.handed.lock().unwrap().insert(ptr, info.map(|i| i.serial).unwrap_or(0));
         if let Some(origin) = sh.returned.lock().unwrap().remove(&ptr) {
             sh.reuse.fetch_add(1, Ordering::Relaxed);
             if origin != T::TY {
@@ -769,7 +789,7 @@ fn run_thread<P: PoolApi>(pool: &P, ops: &[TOp], min_size: usize, sh: &Shared, t
                             sh.returned_by.lock().unwrap().insert(hd.ptr(), tid);
                         }
                         if let Err(p) = vcore::catch(|| hd.give_back(pool)) {
-                            sh.set_failure(fail(|| p.signature(), || format!("thread {tid}: pool.add panicked: {} at {}", p.msg, p.loc())));
+                            sh.set_failure(fail(|| panic_sig(&p), || format!("thread {tid}: pool.add panicked: {} at {}", p.msg, panic_loc(&p))));
                             res = Err(());
                             break;
                         }
@@ -791,8 +811,9 @@ fn run_thread<P: PoolApi>(pool: &P, ops: &[TOp], min_size: usize, sh: &Shared, t
 
 /// After every holder and the pool are gone: nothing handed out may still be allocated.
 fn check_all_freed(sh: &Shared) -> Result<(), Fail> {
-    for &p in sh.handed.lock().unwrap().iter() {
-        if shadow::lookup(p as *const u8).is_some_and(|i| i.live && i.current) {
+    for (&p, &serial) in sh.handed.lock().unwrap().iter() {
+        // same address *and* same allocation (a freed block's address may be in use again)
+        if shadow::lookup(p as *const u8).is_some_and(|i| i.live && i.serial == serial) {
             return Err(fail(
                 || "leak:handed-out-block-live-after-pool-drop".into(),
                 || format!("the block at {p:#x} was handed out during the run and is still allocated after all holders and the pool were dropped"),
@@ -843,7 +864,8 @@ fn shuttle_execution(c: &SCase, outcome: &Mutex<Option<Fail>>, open: &Mutex<Opti
             let v = Vec::<T>::with_capacity(cap);
             if v.capacity() > 0 {
                 sh.returned.lock().unwrap().insert(v.as_ptr() as usize, T::TY);
-                sh.handed.lock().unwrap().insert(v.as_ptr() as usize);
+                let serial = shadow::lookup(v.as_ptr() as *const u8).map(|i| i.serial).unwrap_or(0);
+                sh.handed.lock().unwrap().insert(v.as_ptr() as usize, serial);
             }
             pool.add(v)
         });
@@ -934,9 +956,13 @@ fn oracle_shuttle(c: &SCase, iterations: usize) -> Verdict {
             let locking = c.threads.iter().filter(|t| t.iter().any(|op| matches!(op, TOp::Alloc(_) | TOp::GiveBack { .. }))).count();
             Verdict::pass_l(locking >= 2, l)
         }
-        Err(p) => match outcome.lock().unwrap().take() {
+        Err(p) => match outcome.lock().unwrap().take().inspect(|f| {
+            if std::env::var("C23_DEBUG").is_ok() {
+                eprintln!("C23_DEBUG shuttle failure: {} | {} | panic {} at {}", f.0, f.1, p.msg, p.loc());
+            }
+        }) {
             Some((sig, detail)) => Verdict::fail(sig, format!("{detail} [scheduler {} seed {seed}, {iterations} iterations]", if depth == 0 { "random".to_string() } else { format!("pct({depth})") })),
-            None => Verdict::fail(format!("shuttle:{}", p.signature()), format!("panic under shuttle: {} at {}", p.msg, p.loc())),
+            None => Verdict::fail(format!("shuttle:{}", panic_sig(&p)), format!("panic under shuttle: {} at {}", p.msg, panic_loc(&p))),
         },
     }
 }
@@ -961,7 +987,22 @@ struct RCase {
     threads: Vec<Vec<TOp>>,
 }
 
+/// Real-thread failures need not reproduce when the engine re-runs the shrunk
+/// case; the first observed failure is kept and reported as it happened.
+static FIRST_REAL_THREAD_FAILURE: Mutex<Option<(RCase, String, String)>> = Mutex::new(None);
+
 fn oracle_real_threads(c: &RCase) -> Verdict {
+    let v = oracle_real_threads_impl(c);
+    if let Verdict::Fail { signature, detail } = &v {
+        let mut g = FIRST_REAL_THREAD_FAILURE.lock().unwrap();
+        if g.is_none() {
+            *g = Some((c.clone(), signature.clone(), detail.clone()));
+        }
+    }
+    v
+}
+
+fn oracle_real_threads_impl(c: &RCase) -> Verdict {
     let tok = shadow::begin();
     let mut guard = SessionGuard(Some(tok));
     let sh = Shared::default();
@@ -972,7 +1013,8 @@ fn oracle_real_threads(c: &RCase) -> Verdict {
             let v = Vec::<T>::with_capacity(cap);
             if v.capacity() > 0 {
                 sh.returned.lock().unwrap().insert(v.as_ptr() as usize, T::TY);
-                sh.handed.lock().unwrap().insert(v.as_ptr() as usize);
+                let serial = shadow::lookup(v.as_ptr() as *const u8).map(|i| i.serial).unwrap_or(0);
+                sh.handed.lock().unwrap().insert(v.as_ptr() as usize, serial);
             }
             pool.add(v)
         });
@@ -1099,11 +1141,14 @@ fn main() {
 
     let dbg_threads: Option<usize> = std::env::var("C23_THREADS").ok().and_then(|s| s.parse().ok());
     ck.set_threads(dbg_threads.unwrap_or(16));
+    let t0 = std::time::Instant::now();
     ck.prop("sequential-histories", ck.pick(150_000, 6_000_000), case_strategy, oracle_sequential);
+    let t_seq = t0.elapsed().as_secs_f64();
 
     ck.set_threads(dbg_threads.unwrap_or(8));
     let iterations = ck.pick(25, 100) as usize;
     ck.prop("shuttle-schedules", ck.pick(2_400, 60_000), scase_strategy, move |c| oracle_shuttle(c, iterations));
+    let t_shuttle = t0.elapsed().as_secs_f64() - t_seq;
     ck.extra(
         "shuttle",
         serde_json::json!({
@@ -1116,7 +1161,21 @@ fn main() {
     );
 
     ck.set_threads(2);
-    ck.prop("real-threads-smoke", ck.pick(100, 10_000), rcase_strategy, oracle_real_threads);
+    ck.prop("real-threads-smoke", ck.pick(48, 10_000), rcase_strategy, oracle_real_threads);
+    if !ck.is_replay() {
+        if let Some((case, sig, detail)) = FIRST_REAL_THREAD_FAILURE.lock().unwrap().take() {
+            // no-op if the engine already reported this signature from the shrunk case
+            ck.manual_fail(
+                "real-threads-smoke",
+                &case,
+                &sig,
+                &format!("{detail} [observed under real threads; the interleaving is not controlled, so --replay of this file may pass]"),
+            );
+        }
+    }
+
+    let t_real = t0.elapsed().as_secs_f64() - t_seq - t_shuttle;
+    ck.extra("tier_wall_s", serde_json::json!({"sequential-histories": t_seq, "shuttle-schedules": t_shuttle, "real-threads-smoke": t_real}));
 
     // global oracle state: freed blocks must not have been written to, the table must not have overflowed
     shadow::flush_quarantine();
